@@ -4,7 +4,8 @@ import Starcal.Bisect
 
 `goDiv`/`goMod` are the library's functions as written: Go's truncating `/` and `%`
 (`Int.tdiv`, `Int.tmod`), the sign test, the adjustment. Unbounded integers: the single
-wrapping pair MinInt / −1 is outside the model, as in the property. -/
+wrapping pair MinInt / −1 is outside the model, as in the property; for every other 64-bit pair
+`C19_no_overflow` shows that no intermediate value leaves the 64-bit range. -/
 namespace Starcal.Props
 
 /-- a = b·q + r, r zero or of the sign of b, |r| < |b| -/
@@ -55,6 +56,62 @@ theorem C19_bisect_left (a : List Int) (v : Int) (hs : SortedI a) :
 
 theorem C19_intMin (a b : Int) : intMin a b ≤ a ∧ intMin a b ≤ b ∧ (intMin a b = a ∨ intMin a b = b) :=
   intMin_spec a b
+
+/-! ### the machine integers
+
+The model computes over unbounded integers, the code over `int` (64 bits). For C19 the property's domain is ALL
+64-bit pairs, so "no intermediate value overflows" is part of the claim and is proved here. -/
+
+def I64 (x : Int) : Prop := -9223372036854775808 ≤ x ∧ x ≤ 9223372036854775807
+
+theorem tdiv_bound (a b : Int) (_hb : b ≠ 0) : (Int.tdiv a b).natAbs ≤ a.natAbs := by
+  rw [Int.natAbs_tdiv]
+  exact Nat.div_le_self _ _
+
+/-- no intermediate value of Div / Mod / Divmod leaves the 64-bit range: for 64-bit a and b ≠ 0, except the pair
+    MinInt / -1 the property excludes, `a / b`, `a % b`, and whichever of `a % b + b`, `a / b - 1` the code computes
+    are all 64-bit integers — so the machine arithmetic of the real code IS the unbounded arithmetic of the model -/
+theorem C19_no_overflow (a b : Int) (ha : I64 a) (hb : I64 b) (hb0 : b ≠ 0)
+    (hex : ¬ (a = -9223372036854775808 ∧ b = -1)) :
+    I64 (Int.tdiv a b) ∧ I64 (Int.tmod a b) ∧
+    (((Int.tmod a b < 0 ∧ b > 0) ∨ (Int.tmod a b > 0 ∧ b < 0)) → I64 (Int.tmod a b + b) ∧ I64 (Int.tdiv a b - 1)) := by
+  unfold I64 at *
+  have h1 := tdiv_bound a b hb0
+  have h3 := tmod_abs_lt a b hb0
+  have hd := Int.tmod_add_tdiv_mul a b
+  refine ⟨?_, by omega, ?_⟩
+  · -- |a / b| ≤ |a|; the only way to reach 2^63 is a = -2^63 with |a / b| = |a|, i.e. b = ±1; b = 1 gives a itself
+    by_cases hq : Int.tdiv a b = 9223372036854775808
+    · exfalso
+      have : a = -9223372036854775808 := by omega
+      subst this
+      have hm : Int.tmod (-9223372036854775808) b = 0 ∨ True := Or.inr trivial
+      -- b * q = a - r with |r| < |b|
+      rw [hq] at hd
+      have : b = -1 := by
+        by_cases hb1 : b = -1
+        · exact hb1
+        · exfalso
+          rcases Int.lt_or_gt_of_ne hb0 with hneg | hpos
+          · have : b ≤ -2 := by omega
+            omega
+          · omega
+      exact hex ⟨rfl, this⟩
+    · omega
+  · intro hc
+    constructor
+    · rcases hc with ⟨h, h'⟩ | ⟨h, h'⟩ <;> omega
+    · -- a / b - 1 ≥ -2^63: a / b = -2^63 needs b = 1 (then a % b = 0, excluded by hc)
+      rcases hc with ⟨h, h'⟩ | ⟨h, h'⟩
+      · by_cases hq : Int.tdiv a b = -9223372036854775808
+        · exfalso; rw [hq] at hd; omega
+        · omega
+      · by_cases hq : Int.tdiv a b = -9223372036854775808
+        · exfalso; rw [hq] at hd; omega
+        · omega
+
+example : I64 (Int.tdiv (-9223372036854775808) 1) ∧ ¬ I64 (Int.tdiv (-9223372036854775808) (-1)) := by
+  unfold I64; decide
 
 example : goDiv (-7) 2 = -4 ∧ goMod (-7) 2 = 1 ∧ goDiv 7 (-2) = -4 ∧ goMod 7 (-2) = -1 := by decide
 example : bisectLeft [0, 31, 62, 93] 62 = 2 ∧ bisectLeft [0, 31, 62, 93] 63 = 3 ∧ bisectLeft [] 5 = 0 := by decide
